@@ -1439,7 +1439,17 @@ def rule_permutation(w):
         fk = w.fk(fn)
         ws = [e for e in fk.events if e.kind == "sub" and e.mode == "write"]
         problems = []
-        if [(e.arr.key, e.idx_canon, e.val_canon) for e in ws] != [("this._perm_pos", "$0", "p._perm_pos[this._perm_pos[$0]]")]:
+        got_c = [(e.arr.key, e.idx_canon, e.val_canon) for e in ws]
+        via_tmp = None
+        if len(ws) == 1 and ws[0].arr.owner == "local" and ws[0].arr.fresh and got_c[0][1:] == ("$0", "p._perm_pos[this._perm_pos[$0]]"):
+            # composed into a separate array that then becomes the position array: T[i] = p.perm_pos[perm_pos[i]]; _perm_pos = move(T)
+            t = ws[0].arr
+            handed = [e for e in fk.events if e.kind in ("obj-assign", "alloc") and e.seq > ws[0].seq and not e.frames and
+                      ((e.kind == "obj-assign" and e.get("key") == "this._perm_pos" and fk.okey(e.rhs) == t.key) or
+                       (e.kind == "alloc" and e.arr.key == "this._perm_pos" and getattr(e.arr, "copy_of", None) == t.key))]
+            if handed and t.extent is not None and fk.norm(t.extent) == fk.norm(Lin.atom("size(this._perm_pos)")):
+                via_tmp = t.key
+        if via_tmp is None and got_c != [("this._perm_pos", "$0", "p._perm_pos[this._perm_pos[$0]]")]:
             problems.append("composition is %s, documented P3(x) = P1(P2(x)), i.e. perm_pos[i] = p.perm_pos[perm_pos[i]]" % "; ".join("%s[%s] = %s" % (e.arr.key, e.idx_canon, e.val_canon) for e in ws))
         for e in ws:
             lps = [f.loop for f in e.frames if f.kind == "loop"]
@@ -2814,6 +2824,150 @@ def _rule_size_precond(w):
 
 
 # -------------------------------------------------------------------------------------------------
+# in-place updates that read another object of the same class: the other object may be *this
+# -------------------------------------------------------------------------------------------------
+
+def rule_alias_inplace(w):
+    """member function f(const Class& p) that overwrites this->A[i] in a loop while the same loop reads p.A[j] at another position j: for p == *this the read
+    sees entries that were already overwritten, unless the function excludes / handles that case"""
+    ck = w.ck
+    R = "E7.alias-inplace"
+    n_inst = 0
+    for fn in w.fns:
+        if not re.search(SCOPE_RE, fn.file) or not re.search(CLASS_RE, fn.cls or "") or fn.d.get("ctor") or fn.body is None:
+            continue
+        cname = (fn.cls or "").rsplit("::", 1)[-1]
+        others = [p_ for p_ in fn.params if re.search(r"\b%s\b" % re.escape(cname), fn.type(p_["t"]) or "") and (fn.type(p_["t"]) or "").rstrip().endswith("&")
+                  and not (fn.type(p_["t"]) or "").rstrip().endswith("&&")]
+        if not others:
+            continue
+        fk = w.fk(fn)
+        for o in others:
+            on = o["n"]
+            for e in fk.events:
+                if e.kind != "sub" or e.mode != "write" or e.arr is None or not e.arr.key.startswith("this.") or not any(f.kind == "loop" for f in e.frames):
+                    continue
+                fld = e.arr.key[len("this."):]
+                okey = "%s.%s" % (on, fld)
+                # reads of the other object's same array inside the value, at an index that is not the written one
+                reads = re.findall(re.escape(okey) + r"\[((?:[^\[\]]|\[[^\[\]]*\])*)\]", e.val_canon or "")
+                hazard = [r for r in reads if r != e.idx_canon]
+                if not reads:
+                    continue
+                n_inst += 1
+                key = "%s/%s[%s] from %s" % (short_noinst(fn), e.arr.key, e.idx_canon, okey)
+                if not hazard:
+                    ck.ob(R, key, True, "only the element of %s at the written position is read: harmless when %s is *this" % (okey, on), fn.file, e.node.get("l"))
+                    continue
+                # a self test: this == &p / this != &p / &p == this anywhere in the function (assertion, early return, branch)
+                def is_this(y):
+                    y = strip(y)
+                    return y is not None and y.get("k") == "This"
+
+                def is_addr_of_other(y):
+                    y = strip(y)
+                    return y is not None and y.get("k") == "Un" and y.get("op") == "&" and strip(y["e"]).get("k") == "Ref" and strip(y["e"]).get("d") == o["d"]
+                guard = [x for x in fn.nodes() if x.get("k") == "Bin" and x.get("op") in ("==", "!=") and
+                         ((is_this(x["lhs"]) and is_addr_of_other(x["rhs"])) or (is_this(x["rhs"]) and is_addr_of_other(x["lhs"])))]
+                ck.ob(R, key, bool(guard), ("the function tests whether %s is *this (line %s)" % (on, guard[0].get("l"))) if guard else
+                      "`%s[%s] = %s` overwrites the array in place while reading %s[%s]: for %s == *this (e.g. p.concat(p), squaring a permutation) entries that were already "
+                      "overwritten are read - the result is not the composition and in general not even a permutation; no test of `this == &%s` and no copy protects the loop" % (
+                          e.arr.key, e.idx_canon, e.val_canon, okey, hazard[0], on, on), fn.file, e.node.get("l"))
+    if n_inst == 0:
+        cc = [fn for fn in w.fns if re.search(P, fn.cls or "") and fn.name == "concat" and re.search(SCOPE_RE, fn.file)]
+        if not cc:
+            ck.incomplete(R, "Permutation::concat not found")
+        for fn in cc:
+            fk = w.fk(fn)
+            if fk.unknown:
+                ck.incomplete(R, "%s: %s" % (short_noinst(fn), "; ".join(x[0] for x in fk.unknown)))
+            else:
+                ck.ob(R, "%s/no in-place update" % short_noinst(fn), True, "the composition is not written into the array it is read from (built in a separate array / object)", fn.file, fn.line)
+
+
+# -------------------------------------------------------------------------------------------------
+# CompositeAdjactor: the composition adj1 ; adj2 has the domain of the first and the image of the second adjactor
+# -------------------------------------------------------------------------------------------------
+
+def rule_composite_roles(w):
+    ck = w.ck
+    R = "E1.composite-roles"
+    classes = {}
+    for fn in w.fns:
+        if re.search(r"Adjacency::CompositeAdjactor<.*>$", fn.cls or "") and re.search(r"kernel/adjacency/adjactor\.hpp$", fn.file):
+            classes.setdefault(fn.cls, []).append(fn)
+    if not classes:
+        ck.incomplete(R, "CompositeAdjactor not instantiated by the driver")
+    for cls, fns in sorted(classes.items()):
+        cname = re.sub(r"FEAT::Adjacency::", "", cls)
+        # which member holds the first / second adjactor: bound to the first / second constructor parameter
+        ctor = [f for f in fns if f.d.get("ctor") and len(f.params) == 2]
+        first = second = None
+        if ctor:
+            for ini in ctor[0].d.get("inits") or []:
+                m = ini.get("member") or ini.get("n") or ini.get("field")
+                refs = [x for x in walk(ini.get("init")) if x.get("k") == "Ref" and x.get("dk") == "param"]
+                if m and len(refs) == 1:
+                    if refs[0].get("d") == ctor[0].params[0]["d"]:
+                        first = m
+                    elif refs[0].get("d") == ctor[0].params[1]["d"]:
+                        second = m
+        if first is None or second is None:
+            ck.incomplete(R, "%s: the members bound to the two constructor parameters are not recognised" % cname)
+            continue
+
+        def returned_accessor(f):
+            stmts = [x for x in f.body.get("s", []) if not FnKinds._is_noise(x)]
+            if len(stmts) != 1 or stmts[0].get("k") != "Return":
+                return None
+            e = strip(stmts[0].get("e"))
+            if e is not None and e.get("k") == "MCall" and not e.get("a") and strip(e.get("obj")).get("k") == "Member":
+                return strip(e["obj"])["n"], e.get("n")
+            return None
+        for gname, wm, wn, what in (("get_num_nodes_domain", first, "get_num_nodes_domain", "domain nodes of the FIRST adjactor"),
+                                    ("get_num_nodes_image", second, "get_num_nodes_image", "image nodes of the SECOND adjactor")):
+            g = [f for f in fns if f.name == gname and not f.params]
+            if not g:
+                ck.incomplete(R, "%s::%s() not instantiated" % (cname, gname))
+                continue
+            ra = returned_accessor(g[0])
+            if ra is None:
+                ck.incomplete(R, "%s::%s(): not of the form `return <member>.get_num_nodes_*()`" % (cname, gname))
+                continue
+            ck.ob(R, "%s::%s()" % (cname, gname), ra == (wm, wn), ("returns %s.%s()" % ra) + ("; the composition maps the %s" % what if ra == (wm, wn) else
+                  ": the composed relation has the %s (%s.%s()); renders allocate / bound their arrays by this count, so for adjactors of different sizes the image indices "
+                  "exceed it (or the transpose gets the wrong number of rows)" % (what, wm, wn)), g[0].file, g[0].line)
+        # the well-formedness assertion of the constructor implies Img(first) <= Dom(second): image nodes of the first adjactor are used as domain nodes of the second
+        if ctor:
+            conds = [strip(x["a"][0]) for x in walk(ctor[0].body) if x.get("k") == "Call" and (x.get("callee") or "").endswith("FEAT::assertion") and x.get("a")]
+            verdict = None
+            for c in conds:
+                neg = False
+                while c is not None and c.get("k") == "Un" and c.get("op") == "!":
+                    c, neg = strip(c["e"]), not neg
+                if c is None or c.get("k") != "Bin" or c.get("op") not in ("<=", "==", ">=", "<", ">"):
+                    continue
+                def side(n):
+                    n = strip(n)
+                    if n.get("k") == "MCall" and not n.get("a") and strip(n.get("obj")).get("k") == "Member":
+                        return strip(n["obj"])["n"], n.get("n")
+                    return None
+                l, r, op = side(c["lhs"]), side(c["rhs"]), c["op"]
+                if neg:
+                    op = {"<=": ">", ">=": "<", "<": ">=", ">": "<=", "==": "!="}[op]
+                if l == (second, "get_num_nodes_domain") and r == (first, "get_num_nodes_image"):
+                    l, r, op = r, l, {"<=": ">=", ">=": "<=", "<": ">", ">": "<", "==": "==", "!=": "!="}[op]
+                if l == (first, "get_num_nodes_image") and r == (second, "get_num_nodes_domain"):
+                    verdict = op in ("<=", "==", "<")
+            if verdict is None:
+                ck.incomplete(R, "%s: no constructor assertion relating %s.get_num_nodes_image() and %s.get_num_nodes_domain() found" % (cname, first, second))
+            else:
+                ck.ob(R, "%s/well-formed" % cname, verdict, "the constructor asserts a relation that %s %s.get_num_nodes_image() <= %s.get_num_nodes_domain() "
+                      "(every image node of the first adjactor must be a domain node of the second: ImageIterator calls %s->image_begin(*cur1))" % (
+                          "implies" if verdict else "does NOT imply", first, second, second), ctor[0].file, ctor[0].line)
+
+
+# -------------------------------------------------------------------------------------------------
 
 def run(tier):
     ck = Check("C19", tier)
@@ -2874,6 +3028,11 @@ def run(tier):
     ck.rule("E7.size-precond", "every call of a constructor / function of kernel/adjacency whose entry XASSERT requires a positive size parameter passes a provably positive "
             "argument or is control dependent on a check of that size (the classes construct and return empty objects, so `size()` alone is not positive): "
             "precondition and use live in different functions", 3)
+    ck.rule("E1.composite-roles", "CompositeAdjactor (adjactor.hpp, the helper behind composite renders through a single adjactor): get_num_nodes_domain() is the domain count of the "
+            "adjactor bound to the FIRST constructor parameter, get_num_nodes_image() the image count of the SECOND; the constructor's well-formedness assertion implies "
+            "Img(first) <= Dom(second) (breaks for adjactors of different sizes: image indices beyond the reported image count)", 3)
+    ck.rule("E7.alias-inplace", "a member function that overwrites this->A[i] in a loop while reading p.A[j] (j != i) of a parameter p of the same class must test / exclude "
+            "p == *this (in-place composition reads entries it has already overwritten: Permutation::concat(p) with p aliasing the object)", 1)
     w = World(ck, tier)
     rule_safety(w)
     rule_pairs(w)
@@ -2891,6 +3050,8 @@ def run(tier):
     rule_perm_fill(w)
     rule_moves(w)
     rule_size_precond(w)
+    rule_composite_roles(w)
+    rule_alias_inplace(w)
     if w.norm.log:
         ck.note("read through normalisation (lib/norm_c12.py): " + "; ".join("%s: %s" % (k.replace("FEAT::Adjacency::", "")[:70], ", ".join(sorted(set(v)))) for k, v in sorted(w.norm.log.items()))[:1500])
     ck.assume("adjactor interface contract (adjactor.hpp): image_begin/image_end(n) take n < get_num_nodes_domain(), iteration yields indices < get_num_nodes_image(); "
